@@ -534,6 +534,10 @@ impl Datamodel for RFsmExpressionDatamodel {
             create_data_arc(option_to_data_value(&event.invoke_id)),
         );
         event_props.insert(EVENT_VARIABLE_FIELD_DATA.to_string(), data_value);
+        // W3C: _event and its fields are read-only for the document (5.10).
+        for field in event_props.values_mut() {
+            field.set_readonly(true);
+        }
 
         let mut ds = self.global_data.lock().unwrap();
         let event_name = EVENT_VARIABLE_NAME.to_string();
